@@ -1,138 +1,16 @@
 import OpcuaVerif.Model.C10
 import OpcuaVerif.Proofs.C11
+import OpcuaVerif.Proofs.SrvConn
 
 /-!
 C10 — Memory held for an incomplete incoming message is bounded.
-Server: `pending_bounded` (invariant over every chunk history), `over_limit_closes`,
-`C10_counterexample_unbounded` (pinned source).  Framing layer: `oversize_rejected`,
+Server: see `Proofs/SrvConn.lean` — `pending_bounded` (invariant over every frame history, all chunk
+types and flags), `over_count_closes`, `over_size_closes`, `unbounded_grows`,
+`C10_counterexample_unbounded_opn` (pinned source).  Framing layer: `oversize_rejected`,
 `retained_bounded`, `C10_counterexample_codec_waits` (pinned source).
 -/
 namespace OpcuaVerif.C10
 open OpcuaVerif.C11 OpcuaVerif.C12
-
-/-- the limits hold for what is buffered -/
-def Bounded (s : Srv) : Prop :=
-  (s.maxChunks > 0 → s.pending.length ≤ s.maxChunks) ∧ (s.maxMsg > 0 → s.bytes ≤ s.maxMsg)
-
-theorem sum_append_single (l : List Nat) (n : Nat) : (l ++ [n]).sum = l.sum + n := by
-  induction l with
-  | nil => simp
-  | cons a r ih => simp [ih]; omega
-
-/-- one chunk: limits unchanged, bound preserved -/
-theorem chunk_bounded (s : Srv) (c : CI) (f : Fin) (size : Nat) (h : Bounded s) :
-    Bounded (s.chunk true c f size).1 ∧ (s.chunk true c f size).1.maxChunks = s.maxChunks ∧
-    (s.chunk true c f size).1.maxMsg = s.maxMsg := by
-  obtain ⟨h1, h2⟩ := h
-  unfold Srv.chunk
-  split
-  · exact ⟨⟨h1, h2⟩, rfl, rfl⟩
-  · cases f with
-    | abort => simp [Bounded, Srv.bytes]
-    | intermediate =>
-      simp only [true_and]
-      split
-      · simp [Bounded, Srv.bytes]
-      · rename_i hc
-        split
-        · simp [Bounded, Srv.bytes]
-        · rename_i hb
-          simp only [↓reduceIte]
-          constructor
-          · constructor
-            · intro hp; simp only [List.length_append, List.length_singleton]; simp at hc; have := hc hp; omega
-            · intro hp
-              simp only [Srv.bytes, List.map_append, List.map_cons, List.map_nil, sum_append_single]
-              simp only [Srv.bytes] at hb
-              simp at hb
-              have := hb hp; omega
-          · simp
-    | final =>
-      simp only [true_and]
-      split
-      · simp [Bounded, Srv.bytes]
-      · split
-        · simp [Bounded, Srv.bytes]
-        · simp only [reduceCtorEq, ↓reduceIte]
-          cases recv s.last s.chanId (List.map (fun p => some p.1) (s.pending ++ [(c, size)])) with
-          | err e => simp [Bounded, Srv.bytes]
-          | panic => simp [Bounded, Srv.bytes]
-          | ok l =>
-            simp only
-            split
-            · simp [Bounded, Srv.bytes]
-            · split <;> simp [Bounded, Srv.bytes]
-
-/-- **The server never holds more than the limits.** After any history of chunks (valid or not,
-intermediate, final, abort) on an open connection, the number of buffered chunks is at most
-`max_chunk_count` and their bytes at most `max_message_size` (each when non-zero). -/
-theorem pending_bounded : ∀ (h : List (CI × Fin × Nat)) (s : Srv), Bounded s →
-    Bounded (Srv.run true s h) ∧ (Srv.run true s h).maxChunks = s.maxChunks ∧ (Srv.run true s h).maxMsg = s.maxMsg := by
-  intro h
-  induction h with
-  | nil => intro s hb; exact ⟨hb, rfl, rfl⟩
-  | cons x r ih =>
-    intro s hb
-    obtain ⟨c, f, n⟩ := x
-    simp only [Srv.run]
-    obtain ⟨b1, e1, e2⟩ := chunk_bounded s c f n hb
-    obtain ⟨b2, e3, e4⟩ := ih _ b1
-    exact ⟨b2, by rw [e3, e1], by rw [e4, e2]⟩
-
-/-- a peer exceeding the chunk-count limit gets an error and the connection is closed -/
-theorem over_count_closes (s : Srv) (c : CI) (f : Fin) (size : Nat) (hopen : s.closed = false) (hf : f ≠ .abort)
-    (hp : s.maxChunks > 0) (hfull : s.pending.length ≥ s.maxChunks) :
-    (s.chunk true c f size).2 = .rejected "BadEncodingLimitsExceeded" ∧ (s.chunk true c f size).1.closed = true ∧
-    (s.chunk true c f size).1.pending = [] := by
-  unfold Srv.chunk
-  cases f with
-  | abort => exact absurd rfl hf
-  | intermediate => simp [hopen, hp, hfull]
-  | final => simp [hopen, hp, hfull]
-
-/-- … and likewise for the byte limit -/
-theorem over_size_closes (s : Srv) (c : CI) (f : Fin) (size : Nat) (hopen : s.closed = false) (hf : f ≠ .abort)
-    (hcount : ¬ (s.maxChunks > 0 ∧ s.pending.length ≥ s.maxChunks))
-    (hp : s.maxMsg > 0) (hbig : s.bytes + size > s.maxMsg) :
-    (s.chunk true c f size).2 = .rejected "BadTcpMessageTooLarge" ∧ (s.chunk true c f size).1.closed = true ∧
-    (s.chunk true c f size).1.pending = [] := by
-  unfold Srv.chunk
-  cases f with
-  | abort => exact absurd rfl hf
-  | intermediate => simp [hopen, hcount, hp, hbig]
-  | final => simp [hopen, hcount, hp, hbig]
-
-def srv0 (mc mm : Nat) : Srv :=
-  { maxChunks := mc, maxMsg := mm, l0 := 70, chanId := 1, last := 1, pending := [], closed := false }
-
-theorem srv0_bounded (mc mm : Nat) : Bounded (srv0 mc mm) := by simp [Bounded, srv0, Srv.bytes]
-
-/-- pinned source (no limit check): `n` intermediate chunks are all kept, whatever the limits -/
-theorem unbounded_grows (c : CI) (size : Nat) : ∀ (n : Nat) (s : Srv), s.closed = false →
-    (Srv.run false s (List.replicate n (c, Fin.intermediate, size))).pending.length = s.pending.length + n := by
-  intro n
-  induction n with
-  | zero => intro s _; rfl
-  | succ n ih =>
-    intro s hs
-    simp only [List.replicate_succ, Srv.run]
-    have h1 : (s.chunk false c .intermediate size).1 = { s with pending := s.pending ++ [(c, size)] } := by
-      simp [Srv.chunk, hs]
-    rw [h1, ih _ (by simpa using hs)]
-    simp; omega
-
-/-- pinned source: 2000 identical intermediate chunks are accepted with `max_chunk_count = 5` -/
-theorem C10_counterexample_unbounded :
-    (Srv.run false (srv0 5 327675) (List.replicate 2000 (⟨1, 2, 9⟩, Fin.intermediate, 8196))).pending.length = 2000 := by
-  rw [unbounded_grows ⟨1, 2, 9⟩ 8196 2000 (srv0 5 327675) rfl]
-  rfl
-
-/-- after the fix the sixth chunk is refused -/
-example : (Srv.run true (srv0 5 327675) (List.replicate 2000 (⟨1, 2, 9⟩, Fin.intermediate, 8196))).pending.length ≤ 5 := by
-  obtain ⟨b, e1, _⟩ := pending_bounded (List.replicate 2000 (⟨1, 2, 9⟩, Fin.intermediate, 8196)) _ (srv0_bounded 5 327675)
-  have h := b.1
-  rw [e1] at h
-  exact h (by decide)
 
 /-! ### framing layer -/
 
